@@ -245,7 +245,7 @@ def mutation_selftest(prop):
     out = {"applied": 0, "caught": 0, "missed": [], "skipped": [], "seeds": {}}
     if not os.path.isdir(seeded):
         return out
-    scr = os.path.join(build.CACHE, "scratch", "st-" + prop)
+    todo = []
     for name in sorted(os.listdir(seeded)):
         sd = os.path.join(seeded, name)
         mp = os.path.join(sd, "meta.json")
@@ -257,23 +257,40 @@ def mutation_selftest(prop):
             continue
         if meta.get("property") != prop:
             continue
-        shutil.rmtree(scr, ignore_errors=True)
-        os.makedirs(os.path.dirname(scr), exist_ok=True)
-        subprocess.check_call(["rsync", "-a", "--exclude", "target", "--exclude", ".git", "/repo/", scr + "/"])
-        pr = subprocess.run(["patch", "-p1", "-s", "-i", os.path.join(sd, "patch.diff")], cwd=scr, stdout=subprocess.PIPE, stderr=subprocess.STDOUT, text=True)
-        if pr.returncode != 0:
+        todo.append((name, sd))
+
+    def one(item):
+        name, sd = item
+        scr = os.path.join(build.CACHE, "scratch", "st-%s-%s" % (prop, name))
+        try:
+            shutil.rmtree(scr, ignore_errors=True)
+            os.makedirs(os.path.dirname(scr), exist_ok=True)
+            subprocess.check_call(["rsync", "-a", "--exclude", "target", "--exclude", ".git", "/repo/", scr + "/"])
+            pr = subprocess.run(["patch", "-p1", "-s", "-i", os.path.join(sd, "patch.diff")], cwd=scr, stdout=subprocess.PIPE, stderr=subprocess.STDOUT, text=True)
+            if pr.returncode != 0:
+                return name, None
+            env = dict(os.environ, RACTOR_REPO=scr, VERIF_EVIDENCE_DIR=os.path.join(build.CACHE, "scratch-evidence", "st-%s-%s" % (prop, name)), VERIF_NO_SELFTEST="1")
+            r = subprocess.run([os.path.join(VERIF, "check"), prop, "--tier", "quick"], env=env, stdout=subprocess.PIPE, stderr=subprocess.STDOUT, text=True)
+            rules = sorted(set(re.findall(r"^   rule=(\S+)", r.stdout, re.M)))
+            return name, (r.returncode, rules)
+        finally:
+            shutil.rmtree(scr, ignore_errors=True)
+
+    # the seeds are independent: one scratch copy each, a handful at a time (fact generation is serialised by its own lock)
+    from concurrent.futures import ThreadPoolExecutor
+    with ThreadPoolExecutor(max_workers=6) as ex:
+        results = list(ex.map(one, todo))
+    for name, res in results:
+        if res is None:
             out["skipped"].append(name)
             continue
-        env = dict(os.environ, RACTOR_REPO=scr, VERIF_EVIDENCE_DIR=os.path.join(build.CACHE, "scratch-evidence"), VERIF_NO_SELFTEST="1")
-        r = subprocess.run([os.path.join(VERIF, "check"), prop, "--tier", "quick"], env=env, stdout=subprocess.PIPE, stderr=subprocess.STDOUT, text=True)
-        rules = sorted(set(re.findall(r"^   rule=(\S+)", r.stdout, re.M)))
+        rc, rules = res
         out["applied"] += 1
-        if r.returncode == 1 and rules:
+        if rc == 1 and rules:
             out["caught"] += 1
         else:
             out["missed"].append(name)
         out["seeds"][name] = rules
-    shutil.rmtree(scr, ignore_errors=True)
     return out
 
 
